@@ -59,6 +59,10 @@ var preludeDefs = map[string]string{
 	"map_len":        "(declare-fun map_len (Int Int) Int)",
 	"nlmul":          "(declare-fun nlmul (Int Int) Int)",
 	"shared_builtin": "(declare-fun shared_builtin (Int) Bool)",
+	"json_doc":       "(declare-fun json_doc (Int Int) Int)",
+	"json_int":       "(declare-fun json_int (Int Int) Int)",
+	"json_flt":       "(declare-fun json_flt (Int Int) Flt)",
+	"json_str":       "(declare-fun json_str (Int Int) Str)",
 }
 
 // defs that depend on others
